@@ -67,6 +67,7 @@ type startT struct {
 	LitPlus bool   `json:"litplus"`
 	State   string `json:"state"`
 	Utf8    bool   `json:"utf8"` // the client enables UTF8=ACCEPT first (only on an authenticated connection)
+	Sasl    bool   `json:"sasl"` // the session has its own SASL mechanisms (PLAIN, XTEST, XFINAL)
 }
 
 type caseT struct {
@@ -153,6 +154,9 @@ func getServer(st startT) *srvT {
 	s.srv = imapserver.New(&imapserver.Options{
 		Caps: caps, InsecureAuth: true, Logger: s.log,
 		NewSession: func(c *imapserver.Conn) (imapserver.Session, *imapserver.GreetingData, error) {
+			if st.Sasl {
+				return s.reg.Get(c).(*vh.ScriptSession).WrapSASL(false), &imapserver.GreetingData{PreAuth: st.State == "auth"}, nil
+			}
 			return s.reg.Get(c).(*vh.ScriptSession), &imapserver.GreetingData{PreAuth: st.State == "auth"}, nil
 		},
 	})
@@ -291,17 +295,22 @@ func (p *peer) runUnit(u unit) *result {
 	switch u.Cmd {
 	case "NOOP":
 		p.send([]byte(tag + " NOOP\r\n"))
-	case "AUTH-CANCEL", "IDLE":
+	case "AUTH-CANCEL", "IDLE", "AUTH-FINAL":
 		line := "AUTHENTICATE PLAIN"
 		if u.Cmd == "IDLE" {
 			line = "IDLE"
+		} else if u.Cmd == "AUTH-FINAL" {
+			line = "AUTHENTICATE XFINAL eA=="
 		}
 		p.send([]byte(tag + " " + line + "\r\n"))
 		gotT, gotC, eof, to := p.wait(tag, true, 500*time.Millisecond, 3*time.Second, res)
 		if gotC {
-			if u.Cmd == "IDLE" {
+			switch u.Cmd {
+			case "IDLE":
 				p.send([]byte("DONE\r\n"))
-			} else {
+			case "AUTH-FINAL":
+				p.send([]byte("\r\n")) // the client's (empty) answer to the final server data
+			default:
 				p.send([]byte("*\r\n"))
 			}
 		} else {
@@ -407,7 +416,7 @@ func (p *peer) finish(u unit, payload []byte, res *result) {
 		}
 	}
 	// a well-formed command whose argument did not arrive intact is not "payload"
-	if res.Obs.Call == "plain" && u.Cmd != "IDLE" && u.Cmd != "NOOP" && u.Cmd != "AUTH-CANCEL" {
+	if res.Obs.Call == "plain" && u.Cmd != "IDLE" && u.Cmd != "NOOP" && u.Cmd != "AUTH-CANCEL" && u.Cmd != "AUTH-FINAL" {
 		res.Obs.Call = "altered"
 	}
 }
@@ -425,7 +434,7 @@ func runCase(cs *caseT, enc *json.Encoder, emu *sync.Mutex, out *vh.Out, rng *ra
 	defer p.close()
 	p.rng = rng
 	var recs []interface{}
-	recs = append(recs, map[string]interface{}{"ev": "Reset", "litplus": cs.Start.LitPlus, "state": cs.Start.State, "utf8": cs.Start.Utf8})
+	recs = append(recs, map[string]interface{}{"ev": "Reset", "litplus": cs.Start.LitPlus, "state": cs.Start.State, "utf8": cs.Start.Utf8, "sasl": cs.Start.Sasl})
 	alive := true
 	for i, u := range cs.Units {
 		if !alive {
@@ -478,10 +487,18 @@ func runCase(cs *caseT, enc *json.Encoder, emu *sync.Mutex, out *vh.Out, rng *ra
 			// whatever the server chose, the announced octets never arrive: stop here
 			alive = false
 		}
-		if alive && (u.Cmd == "LOGIN-user" || u.Cmd == "LOGIN-pass") && res.Obs.Tagged == "OK" {
+		if alive && (u.Cmd == "LOGIN-user" || u.Cmd == "LOGIN-pass" || u.Cmd == "AUTH-FINAL") && res.Obs.Tagged == "OK" {
 			// the model's "auth" is the selected state
 			if _, t, err := p.raw.Cmd("SELECT m"); err != nil || t.Name != "OK" {
-				// the stream is out of step (only possible after a framing failure already reported)
+				// the stream is out of step: after a successful authentication the server does not answer a
+				// plain SELECT - something that was no command has been taken for one, or the connection is gone
+				why := "no tagged OK"
+				if err != nil {
+					why = err.Error()
+				} else if t != nil {
+					why = strings.TrimSpace(t.Raw)
+				}
+				out.Mismatch(sigOf("out-of-step", u), "after the unit was answered OK the server does not answer a plain SELECT: "+why, cut)
 				alive = false
 			}
 		}
@@ -617,15 +634,16 @@ func main() {
 		enc := json.NewEncoder(f)
 		var emu sync.Mutex
 		rng := rand.New(rand.NewSource(*seed))
-		cmds := []string{"LOGIN-user", "LOGIN-pass", "CREATE", "RENAME-new", "LIST-pat", "SEARCH-str", "FETCH-hdr", "APPEND", "NOOP-lit", "XUNK-lit", "NOOP", "AUTH-CANCEL", "IDLE"}
+		cmds := []string{"LOGIN-user", "LOGIN-pass", "CREATE", "RENAME-new", "LIST-pat", "SEARCH-str", "FETCH-hdr", "APPEND", "NOOP-lit", "XUNK-lit", "NOOP", "AUTH-CANCEL", "IDLE", "AUTH-FINAL"}
 		nUnits := 0
 		for t := 0; t < *traces; t++ {
 			cs := &caseT{Start: startT{LitPlus: rng.Intn(2) == 0, State: []string{"notauth", "auth"}[rng.Intn(2)]}}
 			cs.Start.Utf8 = cs.Start.State == "auth" && rng.Intn(2) == 0
+			cs.Start.Sasl = cs.Start.State == "notauth" && !cs.Start.LitPlus && rng.Intn(2) == 0
 			for i := 0; i < *steps; i++ {
 				u := unit{Cmd: cmds[rng.Intn(len(cmds))]}
 				switch u.Cmd {
-				case "NOOP", "AUTH-CANCEL", "IDLE":
+				case "NOOP", "AUTH-CANCEL", "IDLE", "AUTH-FINAL":
 					u.Form, u.Size, u.Payload = "none", "small", "benign"
 				default:
 					u.Form = []string{"quoted", "sync", "nonsync"}[rng.Intn(3)]
